@@ -1153,6 +1153,32 @@ impl Uni for OneSk {
 		3
 	}
 }
+/// one encoded primitive field next to a skipped field that occupies memory: the derive's
+/// single-field forwarding applies, the memory image is NOT the encoding
+#[derive(Encode, Decode, DecodeWithMemTracking, MaxEncodedLen, Debug, PartialEq, Clone)]
+pub struct SkP {
+	pub a: u32,
+	#[codec(skip)]
+	pub junk: u64,
+}
+impl Uni for SkP {
+	fn desc() -> String {
+		nest("TPair", "TUnit", &[u32::desc()])
+	}
+	fn gen(r: &mut Rng, d: u32) -> Self {
+		// the skipped field holds anything: it must not reach the wire (decode resets it)
+		SkP { a: u32::gen(r, d), junk: r.next() | 1 }
+	}
+	fn val(&self) -> String {
+		nest("VPair", "VUnit", &[self.a.val()])
+	}
+	fn same(&self, o: &Self) -> bool {
+		self.a == o.a
+	}
+	fn min_wire() -> usize {
+		4
+	}
+}
 impl Uni for AllSk {
 	fn desc() -> String {
 		"TUnit".into()
